@@ -4,7 +4,7 @@
    order - the loop under every schedule is such a sequence (impl_loop_iteration_steps).  [is_fault s = None]: no assert of the
    code has failed so far (impl_no_fault: holds for every state reachable in a build). *)
 From LLB Require Import Engine.Rules Engine.Spec Engine.Impl.
-From LLB Require Import Engine.ImplProofs Engine.ImplProofsMono Engine.ImplProofsLoop.
+From LLB Require Import Engine.ImplProofs Engine.ImplProofsMono Engine.ImplProofsLoop Engine.ImplProofsInv9.
 Local Open Scope N_scope.
 
 (* one iteration of the loop, under any schedule, is a sequence of steps *)
@@ -29,3 +29,19 @@ Theorem impl_at_most_once : forall rules env F ord syncp s s',
             forall k, (count_ev (is_create k) l <= 1)%nat /\ (count_ev (is_avail k) l <= 1)%nat.
 Proof. exact at_most_once. Qed.
 Print Assumptions impl_at_most_once.
+
+(* no assert of the code fails in any state of a build ([in_build]: the engine was quiescent, then any sequence of steps);
+   covered asserts: see the fault codes of Impl.v (task exists, rule IsScanning / InProgressWaiting / InProgressComputing where the
+   code assumes it, demandRule only on scanned rules, --waitCount never at 0, scan index in range) *)
+Theorem impl_no_fault : forall rules env F ord syncp s0 root s,
+  in_build rules env F ord syncp s0 root s -> is_fault s = None.
+Proof. exact no_fault. Qed.
+Print Assumptions impl_no_fault.
+
+(* the waitCount identity: a task's waitCount is the number of its requests in inputRequests, in the pausedInputRequests of rules
+   being scanned, in the requestedBy lists of tasks, and in finishedInputRequests *)
+Theorem impl_waitcount : forall rules env F ord syncp s0 root s,
+  in_build rules env F ord syncp s0 root s ->
+  forall t ti, aget (is_tasks s) t = Some ti -> ti_wait ti = outstanding_count s t.
+Proof. exact waitcount. Qed.
+Print Assumptions impl_waitcount.
